@@ -75,7 +75,11 @@ class OperatorTable(Expression):
         return self.operands.always_succeeds()
 
     def can_partially_succeed(self):
-        return not self.always_succeeds() and self.operands.can_partially_succeed()
+        if self.always_succeeds():
+            return False
+        # With prefix operators, the table can fail after consuming some of
+        # them (when no operand follows).
+        return self.prefixes is not None or self.operands.can_partially_succeed()
 
     def complain(self):
         return 'Unexpected input'
@@ -110,10 +114,11 @@ class OperatorTable(Expression):
                 out += (inner_checkpoint << POS)
 
             with utils.if_fails(out, flags, self.operands):
-                if self.operands.can_partially_succeed():
-                    # If we have a result, then backtrack to the checkpoint.
-                    with out.IF(operand_stack):
-                        out += (POS << outer_checkpoint)
+                # If we have a result, then backtrack to the checkpoint: the
+                # operator (and any prefix operators) that we consumed after
+                # the last complete operand must stay in the input.
+                with out.IF(operand_stack):
+                    out += (POS << outer_checkpoint)
                 out += BREAK
 
             # OK, we have an operand.
